@@ -223,6 +223,16 @@ def check_c05(tier, seed):
     pp = [(44, 155381, None), (1, 2, None), (0, 0, 0), (1000, 1000000, 5), (44, 155381, 0), (44, 1000, 0), (1, 2, 0)]
     if not quick:
         pp += [(7, 0, None), (500, 10, 123456), (999, 999999, None), (2, 155381, 1)]
+    jobs, heads = sweep_jobs(pp, quick, rng)
+    rep.evaluations = len(jobs)
+    tr, evs = run_jobs(jobs, heads, "c05", 8 if quick else 12)
+    return finish_c05(rep, tr, evs, jobs, heads)
+
+
+def sweep_jobs(pp, quick, rng):
+    """resolutions of the transfer templates with store totals swept around every CBOR width boundary of the change
+    output, inside the fee window, and on a coarse grid (shared by C05, which judges the rounds, and C14, which only
+    asks that each resolution ends)"""
     tnames = ["transfer", "transfer_nofee_min", "transfer_min"]
     jobs, heads = [], []
     q = 2_000_000
@@ -251,8 +261,10 @@ def check_c05(tier, seed):
                 rounds = rng.choice([3, 3, 5])
                 jobs.append({"id": len(jobs), "cmd": "resolve", "cfg": c, "steps": [step(tn, q, split, rounds)], "compare_fresh": False})
                 heads.append(case_event([tn], q, split, c, rounds))
-    rep.evaluations = len(jobs)
-    tr, evs = run_jobs(jobs, heads, "c05", 8 if quick else 12)
+    return jobs, heads
+
+
+def finish_c05(rep, tr, evs, jobs, heads):
     rep.add_trace(tr)
     for b in tr.bad:
         if b["why"] in C05_REASONS:
